@@ -47,7 +47,7 @@ def run(tier, seed):
         cs, _ = tlc_family("C20", fam, tier, seed)
         for c in cs:
             if c.get("accept") is False:
-                for sep in (" ", "\n", "\r\n", "\t", " /* é漢 */ ", " // é\r\n"):
+                for sep in (" ", "\n", "\r\n", "\t", " /* é漢 */ ", " // é\r\n", " \n", "\n\n", "\t \r\n"):
                     fam_cases.append({"kind": "total", "entry": "program", "tokens": c["tokens"], "sep": sep})
     cases = fam_cases + cases
     results = run_replay("C20", cases)
@@ -142,3 +142,34 @@ def run(tier, seed):
     out.assumptions = ["the driver's splitting of the message into rows (regular expressions in checklib/c20.py) is trusted",
                        "errors located after the last line terminator quote no line; nothing is required of them beyond the description"]
     return out.finish()
+
+
+def replay_one(c, r):
+    """Re-validate the error messages of one recorded text against TraceSpans.tla."""
+    src = r.get("src", "")
+    recs = []
+    for call in r.get("calls", []):
+        if call["call"] == "new" and call["outcome"] == "err" and src != "":
+            rec = structure(src, call["msg"])
+            if rec.pop("bare", False):
+                return [("C20:bare", "error of a non-empty file is rendered without source location: " + call["msg"][:200])]
+            recs.append((rec, call["msg"]))
+    if not recs:
+        return []
+    wd = workdir("C20")
+    tpath = os.path.join(wd, "replay_trace.ndjson")
+    with open(tpath, "w") as f:
+        for rec, _ in recs:
+            f.write(json.dumps(rec, separators=(",", ":")) + "\n")
+    run_tlc("C20", "TraceSpans", workers=1, extra_env={"TRACE": tpath}, timeout=300, java_opts="1g")
+    depth = None
+    with open(os.path.join(wd, "tlc_TraceSpans.out")) as f:
+        for line in f:
+            m = re.search(r"depth of the complete state graph search is (\d+)", line)
+            if m:
+                depth = int(m.group(1))
+    if depth is None:
+        raise ToolError("cannot read the depth of the TraceSpans run")
+    if depth - 1 < len(recs):
+        return [("C20:quote", "rendered error does not quote the source lines it points at: " + recs[depth - 1][1][:300])]
+    return []
